@@ -170,7 +170,10 @@ def pinpoint(ctx, unit, k):
     bad = []
     for c in e.get("cols", []):
         p = ctx.path("pinpoint.ndjson")
-        vlib.write_ndjson(p, head + [dict(e, cols=[c], only_listed_columns=True)])
+        ev1 = dict(e, cols=[c], only_listed_columns=True)
+        if "queries" in e:          # only the queries on this column
+            ev1["queries"] = [q for q in e["queries"] if q.get("key") == c.get("key")]
+        vlib.write_ndjson(p, head + [ev1])
         r = vlib.run_tlc(MOD, CFG, workers=1, timeout=300, trace=p, deque=True, heap="6g")
         if not r.ok:
             bad.append(c)
